@@ -193,9 +193,18 @@ def check_C09(ctx, deep=False):
              ("w", 1100, 0, 2), ("b", 9100, 0, None)]
     if not ctx.quick:
         cases = cases * 4
+    cases = [c + (None,) for c in cases]
+    # "the actual delay equals that plan": also on positions whose capture search alone takes far longer
+    # than the slice (queen lattices, SPEC-checked variants) — whatever happens to the search thread,
+    # the answer is due when the slice is over
+    for o in C.genops("heavy", ctx.seed + 8, 6 if ctx.quick else 40):
+        if o.startswith("pos position fen "):
+            side = o.split(" ")[4]
+            cases.append((side, 700, 0, None, o[4:]))
+            cases.append((side, 2100, 0, 10, o[4:]))
 
     def one(case):
-        col, clock, inc, mtg = case
+        col, clock, inc, mtg, pos = case
         planned = plan(k, clock, inc, mtg)
         worst = None
         for attempt in range(3):
@@ -203,7 +212,9 @@ def check_C09(ctx, deep=False):
             try:
                 if not S.handshake(e):
                     return ("no-handshake", case, None, planned)
-                if col == "b":
+                if pos:
+                    e.send(pos)
+                elif col == "b":
                     e.send("position startpos moves e2e4")
                 else:
                     e.send("position startpos")
@@ -533,6 +544,7 @@ def check_C17(ctx, deep=False):
     lifecycle_sessions(ctx, 30 if ctx.quick else 400)
     ending_sessions(ctx)
     run_traced(ctx, ["garbage", "cont"], 10 if ctx.quick else 80)
+    responsive_after_heavy_go(ctx)
 
 
 ENDING_TAILS = [b"", b"\n", b"\n\n\n", b"   \n", b"\t\n", b"\r\n", b" \t \r\n", b"   ", b"\t", b"\r", b"isrea", b"isready",
@@ -586,6 +598,50 @@ def ending_sessions(ctx):
         elif kind == "did-not-exit":
             ctx.fail(("eof" if plan[0] == "eof" else "quit") + "-did-not-exit", context=plan[1], context_lines=plan[2],
                      last_bytes=repr(plan[3]), note="process still running 7 s after " + ("standard input was closed" if plan[0] == "eof" else "quit was written"))
+
+
+def responsive_after_heavy_go(ctx):
+    """after a `go` that was answered on time although its search thread is still busy (capture search
+    of a queen lattice: seconds), the process must still be a UCI engine: `isready` answered at once,
+    `quit` / end of input end it promptly"""
+    heavy = [o[4:] for o in C.genops("heavy", ctx.seed + 10, 4 if ctx.quick else 24) if o.startswith("pos ")]
+    plans = [(h, end) for h in heavy for end in ("quit", "eof")]
+
+    def one(plan):
+        h, end = plan
+        worst = None
+        for attempt in range(2):
+            e = S.Engine()
+            try:
+                if not S.handshake(e):
+                    return plan, "no-handshake"
+                e.send(h)
+                e.send("go wtime 400 btime 400")
+                _, ok = e.read_until(lambda l: l.startswith("bestmove"), 4.0)
+                if not ok:
+                    worst = "go-unanswered-within-4s"
+                    continue
+                e.send("isready")
+                _, ok = e.read_until(lambda l: l == "readyok", 2.0)
+                if not ok:
+                    worst = "isready-not-answered-within-2s-after-bestmove"
+                    continue
+                if end == "quit":
+                    e.send("quit")
+                else:
+                    e.close_stdin()
+                if e.wait_exit(3.0) is None:
+                    worst = end + "-did-not-end-the-process-within-3s"
+                    continue
+                return plan, "ok"
+            finally:
+                e.kill()
+        return plan, worst
+    for plan, status in S.run_parallel(one, plans, workers=8):
+        ctx.count("heavy_go_lifecycle_sessions")
+        ctx.case(("heavy-life", plan), True)
+        if status != "ok":
+            ctx.fail("unresponsive-after-go", status=status, position=plan[0], ending=plan[1])
 
 
 def unesc(s):
@@ -1471,6 +1527,7 @@ def check_C03(ctx, deep=False):
                     break
                 elif legal is not None:
                     ctx.sample({"pos": pl[:100], "gos": gos, "answer": mv})
+    stale_thread_sessions(ctx)
     # the text printed for every board the engine can hand back after its own previous answer:
     # exhaustive special two-ply chains (promotion then castling etc.), bestmove text = the move
     from props import oracle_fmt
@@ -1492,6 +1549,55 @@ def check_C03(ctx, deep=False):
         for sr in srs:
             if sr["I"] != "panic":
                 check_sweep_group(ctx, posr, genr, sr, k)
+
+
+def stale_thread_sessions(ctx):
+    """a search thread that outlives its `go`: `go` with a tiny slice on a position whose capture search
+    takes seconds (the thread is still inside it when the answer is due), then a NEW position whose own
+    search falls silent within milliseconds (a mate in one: every iteration is cut at once) searched
+    with a slice long enough for the old thread to finish — whatever the old thread still does, the
+    second answer must be a legal move of the second position"""
+    q = ctx.quick
+    heavy = [o[4:] for o in C.genops("heavy", ctx.seed + 9, 3 if q else 16) if o.startswith("pos ")]
+    qops = C.genops("retromate", ctx.seed + 9, 3 if q else 16, "gen_all")
+    qres = C.run_ops(qops)
+    quiet = []
+    for i, r in enumerate(qres):
+        if r["op"].startswith("pos ") and i + 1 < len(qres) and qres[i + 1]["op"] == "gen all" and qres[i + 1]["S"] != "-":
+            quiet.append((r["op"][4:], [m for m, _ in C.succ_list(qres[i + 1]["S"])]))
+    plans = [(h, quiet[i % len(quiet)]) for i, h in enumerate(heavy)] if quiet else []
+
+    def one(plan):
+        h, (qp, legal) = plan
+        e = S.Engine()
+        try:
+            if not S.handshake(e):
+                return plan, "no-handshake", None
+            e.send(h)
+            r1 = S.go_and_wait(e, "go wtime 250 btime 250", 12)
+            if not r1["answered"]:
+                return plan, "first-go-unanswered", None
+            e.send(qp)
+            r2 = S.go_and_wait(e, "go movestogo 1 wtime 8100 btime 8100", 20)
+            if not r2["answered"]:
+                return plan, "second-go-unanswered", None
+            return plan, "ok", (r2["best"], r2["n_best"])
+        finally:
+            e.kill()
+    for plan, status, ans in S.run_parallel(one, plans, workers=6):
+        h, (qp, legal) = plan
+        ctx.count("stale_thread_sessions")
+        ctx.case(("stale", h, qp), True)
+        if status != "ok":
+            ctx.fail("go-not-answered", pos=qp, after=h, status=status)
+            continue
+        best, nb = ans
+        mv = best.split(" ")[1] if " " in best else ""
+        if nb != 1:
+            ctx.fail("not-exactly-one-bestmove", pos=qp, after=h, count=nb)
+        if mv not in legal:
+            ctx.fail("bestmove-not-legal", pos=qp, gos=["(after) " + h, "go wtime 250 btime 250", qp, "go movestogo 1 wtime 8100 btime 8100"],
+                     move=mv, legal=legal[:50], note="answer of an earlier position's search thread?")
 
 
 TERMINAL = ["position fen 7k/5Q2/6K1/8/8/8/8/8 b - - 0 1", "position fen 7k/5Q2/5K2/8/8/8/8/8 b - - 0 1",
